@@ -25,6 +25,7 @@ import (
 	"github.com/makiuchi-d/gozxing/common"
 	"github.com/makiuchi-d/gozxing/common/reedsolomon"
 	"github.com/makiuchi-d/gozxing/datamatrix"
+	dmencoder "github.com/makiuchi-d/gozxing/datamatrix/encoder"
 	multiqr "github.com/makiuchi-d/gozxing/multi/qrcode"
 	"github.com/makiuchi-d/gozxing/oned"
 	"github.com/makiuchi-d/gozxing/oned/rss"
@@ -32,6 +33,7 @@ import (
 
 	"verifharness/fw"
 	"verifharness/ref/azref"
+	"verifharness/ref/dmref"
 	"verifharness/ref/onedref"
 )
 
@@ -399,12 +401,72 @@ func BuildOps(r *fw.Rand, n int) []Op {
 			if r.Intn(5) == 0 {
 				n = 300 + r.Intn(900) // several interleaved Reed-Solomon blocks (52x52 and larger)
 			}
-			content := from(r, "abcdefghijklmnopqrstuvwxyzABCXYZ0123456789 *>\r!&\xe9\xfc", n)
+			// one alphabet per encodation the high-level encoder can choose (mixed, C40, Text, X12, EDIFACT,
+			// Base 256, digit pairs): each mode encoder is exercised by several goroutines at once
+			dmAlpha := []string{
+				"abcdefghijklmnopqrstuvwxyzABCXYZ0123456789 *>\r!&\xe9\xfc",
+				"ABCDEFGHIJKLMNOPQRSTUVWXYZ0123456789 ",
+				"abcdefghijklmnopqrstuvwxyz0123456789 ",
+				"ABCDEFGHIJ0123456789 *>\r",
+				"ABCDEFGH.,-/()!@#$%&'*+:;<=>?[]^_",
+				"\x80\x81\x90\xa0\xb5\xc3\xd7\xe9\xfc\xff",
+				"0123456789",
+			}[r.Intn(7)]
+			content := from(r, dmAlpha, n)
 			rs := make([]rune, 0, len(content))
 			for i := 0; i < len(content); i++ {
 				rs = append(rs, rune(content[i]))
 			}
 			text := string(rs)
+			if r.Intn(3) == 0 {
+				// size selection under hints: 2n digits are n codewords, and which symbol is the first
+				// admissible one for (n, shape, min, max) is known beforehand from Table 7
+				cw := 1 + r.Intn(12)
+				if r.Intn(4) == 0 {
+					cw = 13 + r.Intn(60)
+				}
+				shape := r.Intn(3)
+				var minRC, maxRC *[2]int
+				switch r.Intn(5) {
+				case 0:
+					maxRC = &[][2]int{{10, 40}, {18, 18}, {12, 36}, {16, 48}, {32, 32}}[r.Intn(5)]
+				case 1:
+					minRC = &[][2]int{{8, 18}, {12, 36}, {14, 14}, {20, 20}, {8, 32}}[r.Intn(5)]
+				case 2:
+					maxRC = &[][2]int{{10, 40}, {26, 26}, {16, 36}, {44, 44}}[r.Intn(4)]
+					minRC = &[][2]int{{8, 8}, {10, 10}, {8, 18}}[r.Intn(3)]
+				}
+				digs := digits(r, 2*cw)
+				ops = append(ops, Op{"dm-sized", func() string {
+					hints := map[gozxing.EncodeHintType]interface{}{}
+					if shape != 0 {
+						hints[gozxing.EncodeHintType_DATA_MATRIX_SHAPE] = dmencoder.SymbolShapeHint(shape)
+					}
+					minR, minC, maxR, maxC := 0, 0, 0, 0
+					if minRC != nil {
+						d, _ := gozxing.NewDimension(minRC[1], minRC[0])
+						hints[gozxing.EncodeHintType_MIN_SIZE] = d
+						minR, minC = minRC[0], minRC[1]
+					}
+					if maxRC != nil {
+						d, _ := gozxing.NewDimension(maxRC[1], maxRC[0])
+						hints[gozxing.EncodeHintType_MAX_SIZE] = d
+						maxR, maxC = maxRC[0], maxRC[1]
+					}
+					want, ok := dmref.Lookup(cw, shape, minR, minC, maxR, maxC)
+					bm, err := datamatrix.NewDataMatrixWriter().Encode(digs, gozxing.BarcodeFormat_DATA_MATRIX, 0, 0, hints)
+					desc := fmt.Sprintf("dm-sized %d codewords shape %d min %v max %v", cw, shape, minRC, maxRC)
+					if ok != (err == nil) || (ok && (bm.GetHeight() != want.Rows || bm.GetWidth() != want.Cols)) {
+						got := "refused"
+						if err == nil {
+							got = fmt.Sprintf("%dx%d", bm.GetHeight(), bm.GetWidth())
+						}
+						return fmt.Sprintf("APRIORI-MISMATCH %s: run alone this gives %dx%d (admissible %v), here %s", desc, want.Rows, want.Cols, ok, got)
+					}
+					return desc + " -> " + matrixHash(bm, err)
+				}})
+				continue
+			}
 			scale := 2 + r.Intn(3)
 			pure := r.Bool()
 			dmDamage := r.Intn(3) == 0
